@@ -101,7 +101,7 @@ theorem elementsOf_ok {d : Decl} {q : Queue} (h : QInv d q) (c : Nat) :
 /-- the loop of Execute Write: every queued write finds its attribute and stays inside the bound
     object / the configuration array -/
 theorem applyQueued_shape (d : Decl) (sec : Sec) (n : Nat) (es : List (List UInt8)) :
-    ∀ (mem : Mem) (cfg : Config) (cb : Nat), d.attrs.all (attrOk n mem) = true → cfg.length = cfgLen n →
+    ∀ (mem : Mem) (cfg : Config) (cb : Nat), d.attrs.all (attrSafe n mem) = true → cfg.length = cfgLen n →
       (∀ e ∈ es, ElemOk d e) →
       ∃ r, applyQueued d sec mem cfg cb es = some r ∧ r.cfg.length = cfgLen n ∧
         r.mem.map List.length = mem.map List.length := by
@@ -112,12 +112,12 @@ theorem applyQueued_shape (d : Decl) (sec : Sec) (n : Nat) (es : List (List UInt
     obtain ⟨lo, hi, olo, ohi, data, he, hat⟩ := hall e (by simp)
     obtain ⟨a, ha⟩ := Option.isSome_iff_exists.mp hat
     subst he
-    have hok : attrOk n mem a = true := List.all_eq_true.mp hattrs a (attrAt?_mem ha)
+    have hok : attrSafe n mem a = true := List.all_eq_true.mp hattrs a (attrAt?_mem ha)
     obtain ⟨r, hr, hcl, hml⟩ := writeAccess_shape sec (read16 olo ohi) data hok hl
     simp only [applyQueued, ha, hr]
     split
     · obtain ⟨r', hr', hcl', hml'⟩ := ih r.mem r.cfg (cb + cbCount r.cb)
-        (by rw [attrsOk_congr hml]; exact hattrs) hcl (fun x hx => hall x (by simp [hx]))
+        (by rw [attrsSafe_congr hml]; exact hattrs) hcl (fun x hx => hall x (by simp [hx]))
       exact ⟨r', hr', hcl', by rw [hml', hml]⟩
     · exact ⟨_, rfl, hcl, hml⟩
 
@@ -133,7 +133,7 @@ theorem handlePrepare_inv {s : State} (hi : Inv s) {S : Nat} (hq : s.base.decl.q
   · cases ha : attrAt? s.base.decl (read16 lo hi') with
     | none => exact ⟨hi, by simp⟩
     | some a =>
-      obtain ⟨r, hr, hcl, hml⟩ := writeAccess_shape conn.sec 0 [] (hi.shape.attrOk_at ha) hc.1
+      obtain ⟨r, hr, hcl, hml⟩ := writeAccess_shape conn.sec 0 [] (hi.shape.attrSafe_at ha) hc.1
       have hsh : Cccd.Shape (setConn { s.base with mem := r.mem } ci { conn with cfg := r.cfg }) :=
         hi.shape.update hml ci ⟨hcl, hc.2⟩
       simp only [hr]
